@@ -21,10 +21,10 @@ RULE = (
     "non-trivial = at least one non-zero width and the expected padded array differs from zero-padding of the same shape"
 )
 SPACE = {
-    "quick": "8 periodic x 8 boundary x 6 fill_value constructor spellings x 8 x 6 call spellings x 10 width sets x 4 layouts (n=2), + axis settings + Grid.diff with the same kwargs",
+    "quick": "8 periodic x 8 boundary x 6 fill_value constructor spellings x 10 x 8 call spellings (incl. mappings naming the same axes with other values, on the same Grid) x 8 width sets x 4 layouts (n=2), + axis settings + Grid.diff with the same kwargs",
     "thorough": "same x 30 width sets x 6 layouts, n in {2,3}",
 }
-BOUNDS = {"quick": {"n": [2], "width_sets": 10, "layouts": 4}, "thorough": {"n": [2, 3], "width_sets": 30, "layouts": 6}}
+BOUNDS = {"quick": {"n": [2], "width_sets": 8, "layouts": 4}, "thorough": {"n": [2, 3], "width_sets": 30, "layouts": 6}}
 ASSUMPTIONS = [
     "injective integer labels stand for all data values (padding copies cells without reading them); checked with a second labelling",
     "cells that are new along two axes are accepted if they match either order of sequential padding (C12 owns them)",
@@ -35,6 +35,9 @@ AX = ("X", "Y")
 PER = [True, False, [], ["X"], ["Y"], ["X", "Y"], {"X": True, "Y": False}, {"X": False, "Y": True}]
 BND = [None, "fill", "extend", "periodic", {"X": "extend", "Y": "fill"}, {"X": "periodic"}, {"Y": "extend"}, {}]
 FV = [None, 0, 3.5, {"X": 2.0, "Y": -1.0}, {"Y": 4.0}, {}]
+# per-call spellings: the constructor lists plus mappings that name the same axes with other values
+CALL_BND = BND + [{"X": "fill", "Y": "extend"}, {"X": "extend"}]
+CALL_FV = FV + [{"X": -3.0, "Y": 0.0}, {"Y": 0.0}]
 
 
 def widths_for(tier, n):
@@ -43,6 +46,8 @@ def widths_for(tier, n):
         ((1, 1), (1, 1)), ((2, 1), (1, 0)), ((0, 1), (1, 2)), ((n, 0), (0, n)),
         ((1, n), (n, 1)), ((0, 0), (0, 0)),
     ]
+    if tier == "quick":
+        base = base[:2] + base[4:]
     if tier == "thorough":
         vals = sorted({0, 1, 2, n})
         pairs = list(itertools.product(vals, repeat=2))
@@ -259,8 +264,8 @@ def run_shard(shard, tier, seed, rec):
             # the constructor must not have rewritten the spellings it was given (C18 owns
             # that; here we only make sure our own later decoding is not confused by it)
             check_axis_settings(rec, n, per, gb, gf, g)
-            for cb in BND:
-                for cf in FV:
+            for cb in CALL_BND:
+                for cf in CALL_FV:
                     check_diff(rec, n, per, gb, gf, cb, cf, seed, g)
                     for li, layout in enumerate(layouts):
                         for wi, w in enumerate(W):
